@@ -84,7 +84,7 @@ def detect(sid, checks, tier="quick", inplace=False):
     d = os.path.join(SEEDED, sid)
     meta = json.load(open(os.path.join(d, "meta.json")))
     checks = checks or [meta["breaks"]]
-    env = dict(os.environ, VERIF_CACHE="1")
+    env = dict(os.environ, VERIF_CACHE="1", VERIF_EVIDENCE_DIR=os.path.join(VERIF, "out", "seed-evidence"))
     wt = None
     if inplace:
         st = sh(["git", "-C", "/repo", "status", "--porcelain", "--untracked-files=no"]).stdout.strip()
